@@ -3,9 +3,9 @@ package simrt
 import (
 	"fmt"
 	"math/rand"
+	"reflect"
 	"runtime"
 	"runtime/debug"
-	"reflect"
 	"sort"
 	"strings"
 	"sync"
